@@ -30,6 +30,7 @@ typedef struct {
   int64_t clock0;        // simulated wall clock origin (seconds)
   int clock_step;        // seconds added per read
   uint64_t garbage_seed; // 0 = no garbage fill
+  int garbage_mode;      // what fresh memory holds: 0/1 = NaN-payload garbage (default), 2 = zeros (a friendly allocator), 3 = large finite numbers
   int realloc_move_pct;  // 0..100: realloc moves the block with this probability
   uint64_t step_limit;   // 0 = none; exceeding it unwinds the guarded call with SIM_CEILING
   int detect_races;      // happens-before determinacy-race detector on/off
